@@ -30,7 +30,7 @@ pub fn meta() -> CheckMeta {
     CheckMeta {
         id: "C02",
         level: "exploration",
-        rule: "cases: 6 adaptive solvers x G-ivp problems (dim 1-4, general/linear/autonomous/relaxing) x tol 1e-10..1e-3 with L*dt_max placed as the property prescribes (x factor in [0.5,1]); every accepted step is judged against a Richardson-extrapolated RK4 reference flow restarted at the previous point (steps whose reference cannot certify 1e-13 are inconclusive). A solve is non-trivial when it is estimator-limited (median step < 0.9 dt_max, or for the Runge-Kutta solvers a rejected trial step was observed through the call count) and contains start-up/regular/final steps as available; distinct = hash of (solver, problem, configuration)".into(),
+        rule: "cases: 6 adaptive solvers x G-ivp problems (dim 1-4, general/linear/autonomous/relaxing) x tol 1e-10..1e-3 with L*dt_max placed as the property prescribes (x factor in [0.5,1]); every accepted step is judged against a Richardson-extrapolated RK4 reference flow restarted at the previous point (steps whose reference cannot certify 1e-13 are inconclusive). A solve is non-trivial when it is estimator-limited (median step < 0.9 dt_max, or for the Runge-Kutta solvers a rejected trial step was observed through the call count) and contains start-up/regular/final steps as available; distinct = hash of (solver, problem, configuration). Stage decoupled-closed-form: z_k' = -lam_k (1 + d sin(om t + ph)) z_k (d <= 0.1, slow) with its closed-form flow, in three strata — states of size 1..3000 (estimator-limited also for RK4(5) and at tol 1e-10), 30..20000 components (40 for BDF), complex states with quarter-turn or arbitrary phases — real and complex fields, static and run-time dimension".into(),
         assumptions: vec![
             "reference flow: classical RK4 with m and 2m sub-steps, Richardson extrapolated, m doubled until |y_2m - y_m|/15 <= 1e-15 (1+|y|)".into(),
             "bound K_s tol h + 64 eps (1+|y|) for RK/Adams, K_s tol + floor for BDF; K = 8 (RK45, Adams3), 2 (RK23), 4 (BDF2), 60 (Adams5), 150 (BDF6)".into(),
@@ -128,6 +128,185 @@ fn run_case(rep: &mut Report, solver: Solver, prob: &IvpProblem, cfg: &Cfg, mode
     }
 }
 
+/// Decoupled linear family with a closed-form flow, real or complex:
+///   z_k' = -lam_k g(t) z_k,  g(t) = 1 + d sin(om t + ph),  z_k(t) = z_k(s) exp(-lam_k (G(t) - G(s))),
+///   G(t) = t + d (1 - cos(om t + ph)) / om,   0 <= d <= 0.1, om <= 0.3 min lam.
+/// The modulation is kept weak and slow on purpose: every derivative of the solution is then within
+/// a factor 2 of lam^k |z|, so the estimator is never blind (no zero crossing of the derivative it
+/// measures) and the terms it cannot see are an O(lam h) fraction of those it sees, whatever the
+/// size of the state. (With a strong modulation and a state of size 500, a cap-limited step taken
+/// where the measured derivative crosses zero is 16 x tol h off on correct code: that is the
+/// "terms the estimator cannot see" exclusion of the property, scaled by the state.)
+/// It reaches what the reference-flow family does not: states far from O(1) (so that the estimator,
+/// not the cap, limits the step also for RK4(5) and at the small tolerances), many components, and
+/// complex states whose components carry different phases.
+pub struct Decoupled {
+    pub lam: Vec<f64>,
+    pub om: f64,
+    pub ph: f64,
+    pub d: f64,
+}
+impl Decoupled {
+    fn g(&self, t: f64) -> f64 {
+        1.0 + self.d * (self.om * t + self.ph).sin()
+    }
+    fn big_g(&self, t: f64) -> f64 {
+        t + self.d * (1.0 - (self.om * t + self.ph).cos()) / self.om
+    }
+    fn lip(&self) -> f64 {
+        (1.0 + self.d) * self.lam.iter().fold(0.0f64, |m, l| m.max(*l))
+    }
+    fn to_json(&self) -> J {
+        let show: Vec<f64> = self.lam.iter().take(8).cloned().collect();
+        J::obj().set("family", "z_k' = -lam_k (1 + d sin(om t + ph)) z_k").set("d", self.d).set("n", self.lam.len()).set("lam_first8", J::fs(&show)).set("om", self.om).set("ph", self.ph)
+    }
+}
+impl Rhs<f64> for Decoupled {
+    fn dim(&self) -> usize {
+        self.lam.len()
+    }
+    fn eval(&self, t: f64, y: &[f64], out: &mut [f64]) {
+        let g = self.g(t);
+        for k in 0..y.len() {
+            out[k] = -self.lam[k] * g * y[k];
+        }
+    }
+}
+impl Rhs<C64> for Decoupled {
+    fn dim(&self) -> usize {
+        self.lam.len()
+    }
+    fn eval(&self, t: f64, y: &[C64], out: &mut [C64]) {
+        let g = self.g(t);
+        for k in 0..y.len() {
+            out[k] = y[k] * (-self.lam[k] * g);
+        }
+    }
+}
+
+/// judge a path of the decoupled family; `re`/`im` views of the state so that one routine serves both fields
+fn judge_decoupled(rep: &mut Report, tag: &str, solver: Solver, prob: &Decoupled, cfg: &Cfg, pts: &[(f64, Vec<C64>)], clean: bool, calls: u64, case: &dyn Fn() -> J) {
+    let sname = solver.name();
+    let k = k_const(solver);
+    let mut hs = vec![];
+    let mut worst = 0.0f64;
+    for i in 1..pts.len() {
+        let (tp, yp) = (&pts[i - 1].0, &pts[i - 1].1);
+        let (t, y) = (&pts[i].0, &pts[i].1);
+        let h = *t - *tp;
+        if !(h > 0.0) || y.len() != yp.len() || !y.iter().all(|v| v.re.is_finite() && v.im.is_finite()) {
+            rep.inconclusive("malformed-path(C01)");
+            return;
+        }
+        hs.push(h);
+        let dg = prob.big_g(*t) - prob.big_g(*tp);
+        let mut d2 = 0.0;
+        let mut n2 = 0.0;
+        for c in 0..y.len() {
+            let ex = yp[c] * (-prob.lam[c] * dg).exp();
+            d2 += (y[c] - ex).norm_sqr();
+            n2 += y[c].norm_sqr();
+        }
+        // rounding of the step itself and of the closed form, with cancellation in G(t) - G(s)
+        let floor = 16.0 * EPS * (1.0 + n2.sqrt()) * (1.0 + prob.lip() * t.abs().max(tp.abs()));
+        let le = (d2.sqrt() - floor).max(0.0);
+        let unit = if solver.is_bdf() { cfg.tol } else { cfg.tol * h };
+        let ratio = le / unit;
+        worst = worst.max(ratio);
+        rep.count(&format!("{}/steps_judged", sname), 1);
+        rep.count(&format!("{}/{}_steps_judged", sname, tag), 1);
+        if !(ratio <= k) {
+            rep.violation(
+                &format!("{}/local-error", sname),
+                case(),
+                format!("step {} from t={:.9e} with h={:.4e}: distance to the closed-form flow {:e} = {:.2} x tol{} (bound {}), tol={:e}", i, tp, h, le, ratio, if solver.is_bdf() { "" } else { " x h" }, k, cfg.tol),
+            );
+            return;
+        }
+    }
+    rep.max(&format!("{}/{}_local_error_over_unit", sname, tag), worst);
+    rep.max(&format!("{}/local_error_over_bound", sname), worst / k);
+    if hs.len() >= 3 && clean {
+        let mut sorted = hs.clone();
+        sorted.sort_by(|a, b| a.partial_cmp(b).unwrap());
+        let median = sorted[sorted.len() / 2];
+        let rejected = solver.is_rk() && calls / solver.stages() > hs.len() as u64;
+        if median < 0.9 * cfg.dt_max || rejected {
+            rep.count(&format!("{}/estimator_limited_solves", sname), 1);
+            rep.count(&format!("{}/{}_estimator_limited_solves", sname, tag), 1);
+            rep.nontrivial(CaseHash::new("c02-dec").u(solver.idx() as u64).fs(&prob.lam[..prob.lam.len().min(8)]).f(cfg.t0).f(cfg.t1).f(cfg.dt_max).f(cfg.tol).f(pts[0].1[0].re).0);
+        }
+    }
+}
+
+fn decoupled_case(rep: &mut Report, solver: Solver, rng: &mut Rng) {
+    let sname = solver.name();
+    // what: 0 large state, few components; 1 many components; 2 complex with phases
+    let what = rng.below(3);
+    let nmax: f64 = if solver.is_bdf() { 40.0 } else { 20_000.0 };
+    let n = match what {
+        0 => 1 + rng.below(4),
+        1 => (rng.log10(1.5, nmax.log10()) as usize).max(2),
+        _ => 2 * (1 + rng.below(3)),
+    };
+    let lam0 = rng.log10(-0.5, 0.7);
+    let same = rng.chance(0.5);
+    let lam: Vec<f64> = (0..n).map(|_| if same { lam0 } else { lam0 * rng.r(0.6, 1.0) }).collect();
+    let prob = Decoupled { lam, om: rng.r(0.05, 0.18) * lam0, ph: rng.r(0.0, 6.28), d: if rng.chance(0.3) { 0.0 } else { rng.r(0.0, 0.1) } };
+    let tol = rng.log10(-10.0, -3.0);
+    let dt_max = dtmax_for(solver, prob.lip(), tol, rng.r(0.5, 1.0));
+    let t0 = rng.r(-2.0, 2.0);
+    let cfg = Cfg { t0, t1: t0 + dt_max * rng.log10(0.8, 1.8), dt_min: dt_max * rng.log10(-8.0, -6.0), dt_max, tol };
+    // amplitude: large enough that the estimator limits the step, small enough that rounding does not hide tol x h
+    let amp = rng.log10(0.0, 3.5).min(tol * dt_max / (2_000.0 * EPS)).max(1.0) / if what == 1 { (n as f64).sqrt().min(30.0) } else { 1.0 };
+    let complex = what == 2 || rng.chance(0.2);
+    let opts = Opts { budget: 4_000_000, max_items: 3_000, mode: if n <= 4 && rng.bool() { DimMode::Static } else { DimMode::Dynamic }, order: ((cfg.t1.to_bits() >> 7) % 6) as u8, ..Default::default() };
+    // phases: quarter-turn pairs (the squares of equal-size errors cancel), or arbitrary
+    let quarter = rng.chance(0.5);
+    let y0c: Vec<C64> = (0..n)
+        .map(|k| {
+            let a = amp * if same { 1.0 } else { rng.r(0.5, 1.0) };
+            if !complex {
+                C64::new(a * rng.sign(), 0.0)
+            } else if quarter {
+                if k % 2 == 0 { C64::new(a, 0.0) } else { C64::new(0.0, a) }
+            } else {
+                C64::from_polar(a, rng.r(0.0, 6.28))
+            }
+        })
+        .collect();
+    let tag = ["large_state", "many_components", "complex_phases"][what];
+    rep.eval();
+    rep.count(&format!("{}/solves", sname), 1);
+    rep.count(&format!("{}/{}_solves", sname, tag), 1);
+    let case = || J::obj().set("solver", sname).set("field", if complex { "complex" } else { "real" }).set("mode", format!("{:?}", opts.mode)).set("cfg", cfg.to_json()).set("problem", prob.to_json()).set("y0_first8", J::Arr(y0c.iter().take(8).map(|z| J::fs(&[z.re, z.im])).collect())).set("amplitude", amp);
+    let (pts, panic, build_err, errs, clean, calls) = if complex {
+        let out = solve_complex(solver, &cfg, &y0c, &prob, &opts);
+        let mut pts = vec![(cfg.t0, y0c.clone())];
+        pts.extend(out.ok_points());
+        (pts, out.panic.clone(), out.build_err.clone(), out.n_err() > 0 || out.budget_hit, out.clean(), out.calls)
+    } else {
+        let y0r: Vec<f64> = y0c.iter().map(|z| z.re).collect();
+        let out = solve_real(solver, &cfg, &y0r, &prob, &opts);
+        let mut pts = vec![(cfg.t0, y0c.clone())];
+        pts.extend(out.ok_points().into_iter().map(|(t, y)| (t, y.iter().map(|v| C64::new(*v, 0.0)).collect::<Vec<_>>())));
+        (pts, out.panic.clone(), out.build_err.clone(), out.n_err() > 0 || out.budget_hit, out.clean(), out.calls)
+    };
+    if let Some((m, l)) = &panic {
+        rep.violation(&format!("{}/panic", sname), case(), format!("solver panicked: '{}' at {}", m, l));
+        return;
+    }
+    if build_err.is_some() {
+        rep.violation(&format!("{}/valid-config-rejected", sname), case(), format!("{:?}", build_err));
+        return;
+    }
+    if errs {
+        rep.inconclusive("err-or-budget(C05)");
+        rep.count(&format!("{}/err_solves", sname), 1);
+    }
+    judge_decoupled(rep, tag, solver, &prob, &cfg, &pts, clean, calls, &case);
+}
+
 fn flavour_for(rng: &mut Rng) -> usize {
     // C02 is about smooth non-stiff problems: general, linear, autonomous, linear-autonomous, relaxing
     *rng.pick(&[0usize, 0, 1, 2, 3, 5])
@@ -165,6 +344,12 @@ pub fn stages(ctx: &Ctx) -> Vec<Stage> {
         let mode = if rng.bool() { DimMode::Static } else { DimMode::Dynamic };
         run_case(rep, solver, &prob, &cfg, mode);
     }));
+    let nd = ctx.tier.pick(3_000, 60_000);
+    st.push(Stage::new("decoupled-closed-form", nd, move |i, rep| {
+        let mut rng = Rng::for_case(seed, "c02-decoupled", i);
+        let solver = Solver::ADAPTIVE[(i % 6) as usize];
+        decoupled_case(rep, solver, &mut rng);
+    }));
     st
 }
 
@@ -177,6 +362,11 @@ pub fn thresholds(ctx: &Ctx, rep: &Report) -> Vec<Threshold> {
         // its acceptance decisions are exercised by C03's enlarged-cap stratum instead
         if s != Solver::RK45 {
             t.push(Threshold { what: format!("{}: estimator-limited solves", s.name()), required: ctx.tier.pick(10.0, 500.0), observed: rep.counter(&format!("{}/estimator_limited_solves", s.name())) as f64 });
+        }
+    }
+    for s in Solver::ADAPTIVE {
+        for tag in ["large_state", "many_components", "complex_phases"] {
+            t.push(Threshold { what: format!("{}: estimator-limited solves of the closed-form family, stratum {}", s.name(), tag), required: ctx.tier.pick(30.0, 600.0), observed: rep.counter(&format!("{}/{}_estimator_limited_solves", s.name(), tag)) as f64 });
         }
     }
     let solves: i64 = Solver::ADAPTIVE.iter().map(|s| rep.counter(&format!("{}/solves", s.name()))).sum();
